@@ -290,6 +290,7 @@ func Run(c *engine.Ctx) {
 	zones(c)
 	stringContents(c)
 	identifierCompositions(c)
+	otherFields(c)
 }
 
 // identifierCompositions: node identifiers built from the structural tokens of the library's own sources (the
@@ -798,6 +799,54 @@ func setID(n *sbom.Node, t sbom.SoftwareIdentifierType, v string) {
 		n.Identifiers = map[int32]string{}
 	}
 	n.Identifiers[int32(t)] = v
+}
+
+// otherFields: every field of the node schema (enumerated by reflection) is populated on its own - and all of those
+// CycloneDX has no place for together - on the root or on the child, while the attributes the format can express stay
+// as they are (most of them empty): what comes back for the expressible attributes is what went in, whatever else the
+// node carries.
+func otherFields(c *engine.Ctx) {
+	c.Group("fields-one-at-a-time")
+	expressible := map[string]bool{"id": true, "name": true, "version": true, "description": true, "copyright": true, "type": true, "identifiers": true, "hashes": true, "licenses": true, "external_references": true, "primary_purpose": true}
+	fds := gen.FieldsExcept(&sbom.Node{}, "id")
+	type sel struct {
+		name string
+		fds  []int
+	}
+	var sels []sel
+	var outside []int
+	for i, fd := range fds {
+		sels = append(sels, sel{string(fd.Name()), []int{i}})
+		if !expressible[string(fd.Name())] {
+			outside = append(outside, i)
+		}
+	}
+	sels = append(sels, sel{"every-field-outside-the-format", outside})
+	c.Bound("fields-one-at-a-time", fmt.Sprintf("root + one child; each of the %d node fields populated alone, and the %d fields CycloneDX has no place for populated together, on the root or the child x {1.4, 1.5}", len(fds), len(outside)))
+	for _, sl := range sels {
+		for who := 0; who < 2; who++ {
+			for _, f := range versions {
+				sl, who, f := sl, who, f
+				c.Case(func() any {
+					return map[string]any{"group": "fields-one-at-a-time", "fields": sl.name, "on": []string{"root", "child"}[who], "format": string(f)}
+				}, func(t *engine.T) *engine.Violation {
+					nl := two()
+					for _, i := range sl.fds {
+						if expressible[string(fds[i].Name())] && len(sl.fds) > 1 {
+							continue
+						}
+						gen.SetField(nl.Nodes[who].ProtoReflect(), fds[i], 1, "o")
+					}
+					if v := RoundTrip(t, docOf(nl), f); v != nil {
+						return v
+					}
+					t.State(fmt.Sprintf("other:%s:%d:%s", sl.name, who, f))
+					t.Outcome("other-fields-ok")
+					return nil
+				})
+			}
+		}
+	}
 }
 
 func attributes(c *engine.Ctx) {
